@@ -23,11 +23,12 @@ type TypeTable struct {
 	opaque   map[string]bool // type strings treated as opaque sorts
 	opaqueS  map[string]bool // opaque sorts used
 	tids     map[string]int
+	byRef    map[int]bool // type ids whose values sit in an interface as a pointer (compared by identity)
 	typeArgs map[string]Sort // type parameter -> sort
 }
 
 func NewTypeTable(mode ArithMode, opaque map[string]bool) *TypeTable {
-	return &TypeTable{mode: mode, structs: map[string]*types.Struct{}, opaque: opaque, opaqueS: map[string]bool{}, tids: map[string]int{}, typeArgs: map[string]Sort{}}
+	return &TypeTable{mode: mode, structs: map[string]*types.Struct{}, opaque: opaque, opaqueS: map[string]bool{}, tids: map[string]int{}, byRef: map[int]bool{}, typeArgs: map[string]Sort{}}
 }
 
 func intInfo(b *types.Basic) (w int, signed bool, ok bool) {
@@ -163,6 +164,10 @@ func (tt *TypeTable) TID(t types.Type) int {
 	}
 	id := len(tt.tids) + 1
 	tt.tids[k] = id
+	switch U(t).(type) {
+	case *types.Pointer, *types.Map, *types.Chan, *types.Signature:
+		tt.byRef[id] = true
+	}
 	return id
 }
 
@@ -284,6 +289,22 @@ func (tt *TypeTable) Decls() string {
 			// SMT datatypes need no fields is OK
 		}
 		sb.WriteString("))))\n")
+	}
+	// Interface equality: values of pointer-like dynamic types compare by identity, all others
+	// by content. boxedtag says which is which for the types this function mentions; the tag of
+	// any other dynamic type is left open.
+	sb.WriteString("(declare-fun boxedtag (Int) Bool)\n(declare-fun ifacevaleq (Iface Iface) Bool)\n(assert (not (boxedtag 0)))\n")
+	ids := make([]int, 0, len(tt.tids))
+	for _, id := range tt.tids {
+		ids = append(ids, id)
+	}
+	sort.Ints(ids)
+	for _, id := range ids {
+		if tt.byRef[id] {
+			fmt.Fprintf(&sb, "(assert (not (boxedtag %d)))\n", id)
+		} else {
+			fmt.Fprintf(&sb, "(assert (boxedtag %d))\n", id)
+		}
 	}
 	return sb.String()
 }
